@@ -1013,7 +1013,8 @@ CORRUPT_VARIANTS = {
     "flip-type": {"rs": ["ping", "pong", "type3", "type7", "rsvbit"], "ws": ["opposite"]},
     "truncated": ["minus1", "half"],
     "garbage": ["utf8", "binary", "empty"],
-    "non-wamp": ["dict", "emptylist", "strtype", "unknowntype", "short-hello", "int"],
+    "non-wamp": ["dict", "emptylist", "strtype", "unknowntype", "short-hello", "int", "booltype",
+                 "floattype"],
     "session-protocol-error": [""],
     "session-exception": [""],
     "real-out-of-phase": [""],
@@ -1151,7 +1152,10 @@ def case_corrupt(acc, a):
             bad = {"utf8": b"}{ not a message", "binary": b"\xff\xfe\x00\xc1garbage\x80", "empty": b""}[v]
         else:
             obj = {"dict": {"a": 1}, "emptylist": [], "strtype": ["x", 1], "unknowntype": [9999, 1],
-                   "short-hello": [1], "int": 5}[v]
+                   "short-hello": [1], "int": 5,
+                   # message types that merely compare equal to a type code (True == 1 == 1.0)
+                   "booltype": [True, "realm1", {"roles": {"subscriber": {}}}],
+                   "floattype": [1.0, "realm1", {"roles": {"subscriber": {}}}]}[v]
             bad = ser._serializer.serialize(obj)
         if _ref_decodes(sid, bad):
             # the "corruption" happens to be a well-formed message (batch) again: nothing to refuse
